@@ -84,7 +84,9 @@ type DgObs struct {
 	BytesNew bool   `json:"bytesnew"` // no earlier datagram of this run has identical bytes
 	FecOn    bool   `json:"fecon"`
 	FecType  int    `json:"fectype"` // 0xf1 / 0xf2 / 0xf3, 0 without FEC
-	FecSeq   int64  `json:"fecseq"`  // relative to the sender's first id (OOB: -1)
+	FecSeq   int64  `json:"fecseq"`  // relative to the start of the group of the sender's first id, modulo the wrap value (OOB: -1)
+	FecPos   int    `json:"fecpos"`  // absolute id modulo (d+p): the position in the data/parity cycle
+	FecInRng bool   `json:"fecinrange"` // absolute id below the wrap value floor((2^32-1)/(d+p))*(d+p), as README documents
 	SizeOK   bool   `json:"sizeok"`  // data/OOB: size field = payload+2 and nothing follows the payload
 	Tiles    bool   `json:"tiles"`   // the payload is a sequence of 24-byte headers each followed by exactly len bytes
 	ConvOK   bool   `json:"convok"`  // every segment carries the sender's conversation id
@@ -143,6 +145,18 @@ func NewMonitor(start time.Time) *Monitor {
 }
 
 func flow(src, dst string) string { return src + ">" + dst }
+
+// relSeq: the id relative to the group start of the first id seen on the flow, counted modulo the wrap value (so that it keeps
+// growing across one wrap), its position in the data/parity cycle and whether it lies in the documented range.
+func (ep *endpointInfo) relSeq(seq uint32) (rel int64, pos int, inRange bool) {
+	n := int64(ep.d + ep.p)
+	paws := int64(0xffffffff) / n * n
+	rel = int64(seq) - ep.fecBase
+	if rel < 0 {
+		rel += paws
+	}
+	return rel, int(int64(seq) % n), int64(seq) < paws
+}
 
 // Register tells the monitor which configuration the session sending from src to dst uses.
 func (m *Monitor) Register(src, dst string, conv uint32, cfg SessCfg, snBase uint32) {
@@ -308,9 +322,9 @@ func (m *Monitor) Observe(d *simnet.Dgram) {
 		case wire.TypeData:
 			if !ep.fecSeen {
 				ep.fecSeen = true
-				ep.fecBase = int64(f.Seqid)
+				ep.fecBase = int64(f.Seqid) / int64(ep.d+ep.p) * int64(ep.d+ep.p)
 			}
-			o.FecSeq = int64(f.Seqid) - ep.fecBase
+			o.FecSeq, o.FecPos, o.FecInRng = ep.relSeq(f.Seqid)
 			o.SizeOK = len(f.Padding) == 0 && int(f.Size) == len(f.Payload)+2
 			ep.group[int64(f.Seqid)] = append([]byte(nil), plain[wire.FecHeader:]...)
 			if g := int64(f.Seqid) / int64(ep.d+ep.p) * int64(ep.d+ep.p); o.Mtu > ep.groupMtu[g] {
@@ -319,7 +333,11 @@ func (m *Monitor) Observe(d *simnet.Dgram) {
 			o.ParityOK = true
 			body = f.Payload
 		case wire.TypeParity:
-			o.FecSeq = int64(f.Seqid) - ep.fecBase
+			if !ep.fecSeen {
+				ep.fecSeen = true
+				ep.fecBase = int64(f.Seqid) / int64(ep.d+ep.p) * int64(ep.d+ep.p)
+			}
+			o.FecSeq, o.FecPos, o.FecInRng = ep.relSeq(f.Seqid)
 			o.SizeOK = true
 			o.Tiles = true
 			o.ConvOK = true
@@ -448,7 +466,7 @@ func (w *World) FlushWire() {
 	for i := range obs {
 		o := obs[i]
 		w.Tr.Add(map[string]any{"ev": "dg", "id": o.ID, "src": o.Src, "dst": o.Dst, "len": o.Len, "t": o.T, "mtu": o.Mtu, "openparity": o.OpenPar, "cryptok": o.CryptOK,
-			"noncenew": o.NonceNew, "bytesnew": o.BytesNew, "fecon": o.FecOn, "fectype": o.FecType, "fecseq": o.FecSeq, "sizeok": o.SizeOK,
+			"noncenew": o.NonceNew, "bytesnew": o.BytesNew, "fecon": o.FecOn, "fectype": o.FecType, "fecseq": o.FecSeq, "fecpos": o.FecPos, "fecinrange": o.FecInRng, "sizeok": o.SizeOK,
 			"tiles": o.Tiles, "convok": o.ConvOK, "parityok": o.ParityOK, "segs": o.Segs, "ooblen": o.OOBLen, "injected": o.Injected, "fd": o.FD, "fp": o.FP})
 	}
 }
